@@ -221,4 +221,63 @@ theorem searchCall_shape {b : Backend σ} {sp : Space} {obj : Obj} {c : Call} {d
               exact ⟨dj, csj, by simpa using Tj, hc⟩
             fired := by intro hlt; exact hchk (by omega) }
 
+/-- invariants along a run: if `P` is preserved by every step and yields `Q` for the step's record, then `P` holds at the
+    end and `Q` holds for every record of the trajectory -/
+theorem Run.traj_inv {sp : Space} {obj : Obj} {c : Call} (P : DState σ → CState → Prop) (Q : StepRec → Prop)
+    (hstep : ∀ i (d d1 : DState σ) (cs cs1 : CState) p v e, P d cs → StepFacts sp obj c i d d1 cs cs1 p v e →
+      P d1 cs1 ∧ Q (p, v, e))
+    {i k : Nat} {d d' : DState σ} {cs cs' : CState} (r : Run sp obj c i k d d' cs cs') (h0 : P d cs) :
+    ∃ tr, Traj sp obj c i k d d' cs cs' tr ∧ P d' cs' ∧ ∀ t ∈ tr, Q t := by
+  induction r with
+  | @last i d d1 cs cs1 sf =>
+    obtain ⟨p, v, e, f, _⟩ := sf.facts
+    obtain ⟨hP, hQ⟩ := hstep i d d1 cs cs1 p v e h0 f
+    refine ⟨[(p, v, e)], ?_, hP, by intro t ht; simp at ht; subst ht; exact hQ⟩
+    exact { len := by simp, pos := by omega
+            rows := by simp [f.rows, StepRec.eval, StepRec.value], posL := by simp [f.posL, StepRec.pos]
+            scoreL := by simp [f.scoreL, StepRec.score], evalT := by simp [f.evalT, StepRec.eval]
+            clock := by simp [f.clock, sumQ, StepRec.eval]; grind
+            pbar := by simp [pbarFold, f.pbar, StepRec.score, StepRec.pos], stop := f.stop
+            values := by intro t ht; simp at ht; subst ht; exact f.hv }
+  | @cons i k d d1 d' cs cs1 cs' sf _ run ih =>
+    obtain ⟨p, v, e, f, _⟩ := sf.facts
+    obtain ⟨hP, hQ⟩ := hstep i d d1 cs cs1 p v e h0 f
+    obtain ⟨tr, T, hP', hQ'⟩ := ih hP
+    have hlt := run.lt
+    refine ⟨(p, v, e) :: tr, ?_, hP', ?_⟩
+    · exact { len := by simp [T.len]; omega, pos := by omega
+              rows := by rw [T.rows, f.rows]; simp [StepRec.eval, StepRec.value]
+              posL := by rw [T.posL, f.posL]; simp [StepRec.pos]
+              scoreL := by rw [T.scoreL, f.scoreL]; simp [StepRec.score]
+              evalT := by rw [T.evalT, f.evalT]; simp [StepRec.eval]
+              clock := by rw [T.clock, f.clock]; simp [sumQ, StepRec.eval]; grind
+              pbar := by rw [T.pbar, f.pbar]; simp [pbarFold, StepRec.score, StepRec.pos]
+              stop := by rw [T.stop, f.stop]
+              values := by
+                intro t ht
+                rcases List.mem_cons.mp ht with h | h
+                · subst h; exact f.hv
+                · exact T.values t h }
+    · intro t ht
+      rcases List.mem_cons.mp ht with h | h
+      · subst h; exact hQ
+      · exact hQ' t h
+
+/-- the same for a whole `search()` call -/
+theorem searchCall_inv {b : Backend σ} {sp : Space} {obj : Obj} {c : Call} {d d' : DState σ} {r : CallResult}
+    (P : DState σ → CState → Prop) (Q : StepRec → Prop)
+    (hstep : ∀ i (d d1 : DState σ) (cs cs1 : CState) p v e, P d cs → StepFacts sp obj c i d d1 cs cs1 p v e →
+      P d1 cs1 ∧ Q (p, v, e))
+    (h : searchCall b sp obj c d = .ok (d', r)) (hn : 0 < c.nIter)
+    (h0 : ∀ cs, initSearch sp c d = .ok cs → P d cs) :
+    ∃ cs d1 cs1 tr, initSearch sp c d = .ok cs ∧ finishSearch sp c d1 cs1 r.steps = .ok (d', r) ∧
+      Traj sp obj c 0 r.steps d d1 cs cs1 tr ∧ P d1 cs1 ∧ ∀ t ∈ tr, Q t := by
+  obtain ⟨cs, d1, cs1, steps, hcs, hx, hfin⟩ := searchCall_parts h
+  obtain ⟨h0', _⟩ := initSearch_ok hcs
+  have hsteps : r.steps = steps := (finishSearch_ok hfin).2.2.2.2.2.2.2.2.2.2.2.2.1
+  rcases searchLoop_run c.nIter 0 d cs d1 cs1 steps (by rw [h0']; omega) (by omega) hx with ⟨hf, _⟩ | ⟨_, run, _, _⟩
+  · omega
+  · obtain ⟨tr, T, hP, hQ⟩ := run.traj_inv P Q hstep (h0 cs hcs)
+    exact ⟨cs, d1, cs1, tr, hcs, by rw [hsteps]; exact hfin, by rw [hsteps]; exact T, hP, hQ⟩
+
 end GFO
